@@ -64,6 +64,17 @@ VARIANTS = {
     'new-private-raise-site': seeded(ECON, "    if isinstance(cause.pith, Collection):",
                                      "    if cause.pith is NotImplemented:\n        raise _BeartypeCallHintPepRaiseException('unexpected')\n    if isinstance(cause.pith, Collection):",
                                      'C03.R6'),
+    # ---- R4 / R6: the interpreted explanation entry ---------------------------------
+    'desync-fabricates-a-violation': seeded(ERM, "    if not violation_cause.cause_str_or_none:\n",
+                                            "    if not violation_cause.cause_str_or_none:\n        violation_cause.cause_str_or_none = 'unknown'\n    if False:\n", 'C03.R6',
+                                            'no cause found: a violation with a made-up message instead of the internal error'),
+    'nested-culprit-dropped': seeded(ERM, "    if obj is not violation_cause.pith:\n", "    if False:\n", 'C03.R4',
+                                     'the item the cause names is no longer among the culprits'),
+    'message-loses-the-hint': seeded(ERM, "    violation_prefix = f'{exception_prefix}violates type hint {hint_repr}'\n",
+                                     "    violation_prefix = f'{exception_prefix}violates its type hint'\n", 'C03.R4'),
+    'entry-raises-under-maximal-verbosity': seeded(ERM, "    violation_verbosity = conf.violation_verbosity\n",
+                                                   "    violation_verbosity = conf.violation_verbosity\n    if violation_verbosity is BeartypeViolationVerbosity.MAXIMAL and pith_name is None:\n        raise ValueError('verbose door violations unsupported')\n",
+                                                   'C03.R4', 'a rejection turns into a non-violation exception for one configuration'),
     # ---- neutral ------------------------------------------------------------------
     'n-errmap-reorder-specifics': Variant('neutral', [EMAP], chain(
         sub(EMAP, "        HintSignLiteral: find_cause_pep586_literal,\n", ""),
